@@ -331,6 +331,27 @@ def check_resample(ctx: core.Ctx, traj, case):
         raise
     except Exception as e:  # noqa: BLE001
         return bool(ctx.fail_exc('resample.mid', e, disc)) is False
+    # the resampled trajectory is a value of its own: editing the caller's time array afterwards, or the resampled
+    # time axis, must change neither the other one nor the flown trajectory
+    tq_before = tq.copy()
+    mid_t_before = np.array(mid.flight_time, dtype=float)
+    tq += 1.0e3
+    if not np.array_equal(np.asarray(mid.flight_time, dtype=float), mid_t_before):
+        if ctx.fail('resample.aliasing', 'mismatch', 'trajectory.interpolate_time', 'argument',
+                    'the resampled trajectory\'s flight_time changed when the caller edited the array passed as new_time'):
+            return False
+    tq = tq_before
+    own_t = np.asarray(own.flight_time)
+    if isinstance(own_t, np.ndarray) and own_t.size:
+        saved = np.array(t)
+        try:
+            own_t[...] = own_t + 5.0e3
+        except (ValueError, TypeError):
+            pass  # read-only view: cannot alias harmfully
+        if not np.array_equal(np.asarray(traj.flight_time, dtype=float), saved):
+            if ctx.fail('resample.aliasing', 'mismatch', 'trajectory.interpolate_time', 'own_times',
+                        'editing the time axis of the resampled copy changed the flown trajectory\'s flight_time'):
+                return False
     for f in fc.POINT_FIELDS:
         a = np.asarray(getattr(traj, f), dtype=float)
         r = np.asarray(getattr(mid, f), dtype=float)
